@@ -37,7 +37,13 @@
    `Mutant` switches on spec-level mutants used by the non-vacuity self-test:
    "nosync1" (no data sync before the root), "noalt" (always slot A), "nochecksum"
    (torn roots accepted), "nogen" (generation not incremented), "noscrub" (an invalid slot is
-   left as it is on open — the code before the fix).
+   left as it is on open — the code before the fix), "dirtyappend" (data_dirty is set by plain
+   appends only, not by the commit's own head-set record).
+
+   Bare commits: a commit needs no preceding plain append — AppendHdr(n, TRUE) is enabled in
+   "idle" right after Sync2 or Open (`Storage::commit_heads` twice in a row, or as the first
+   call on a reopened writer).  Then the head-set record is the only dirty data and Sync1 must
+   still be taken; `BareCommitReached` is the (expected-to-fail) reachability witness.
 
    StaleRootRevival (found by TLC with MaxCrashes = 2 on the spec without Scrub, reproduced on
    the real code by `vh-crash recrash`, fixed in /repo): crash 1 persists the root *body* of an
@@ -225,7 +231,8 @@ AppendBody ==
   /\ Issue(W(mem.free + HdrLen, cur.n, <<"item", nid>>))
   /\ lay' = Append(lay, [off |-> mem.free, n |-> cur.n, id |-> nid])
   /\ nid' = nid + 1
-  /\ mem' = [mem EXCEPT !.free = @ + HdrLen + cur.n, !.dirty = TRUE,
+  /\ mem' = [mem EXCEPT !.free = @ + HdrLen + cur.n,
+                        !.dirty = IF Mutant = "dirtyappend" /\ cur.commit THEN @ ELSE TRUE,
                         !.heads = IF cur.commit THEN mem.free ELSE @]
   /\ pc' = IF cur.commit THEN "sync1" ELSE "idle"
   /\ napp' = IF cur.commit THEN napp ELSE napp + 1
@@ -388,6 +395,10 @@ NothingNewerVisible ==
 
 (* Appends stay inside the preallocated region (ensure_capacity ran before the write). *)
 WithinAlloc == pc = "body" => mem.free + HdrLen + cur.n <= mem.alloc
+
+(* reachability witness (must be VIOLATED): a commit whose head-set record is the only data
+   appended since the last sync reaches its first barrier *)
+BareCommitReached == ~(pc = "sync1" /\ napp = 0 /\ Len(unsynced) = 2)
 
 (* A failed open is terminal and only legitimate before the first completed commit. *)
 FailOnlyBeforeFirstCommit == pc = "failed" => done = <<>>
